@@ -56,7 +56,6 @@ impl vstd::std_specs::ops::NotSpecImpl for Choice {
 // ----- error text (E5) ------------------------------------------------------------------------
 #[verifier::external_body]
 pub fn err_text() -> (s: String) { unimplemented!() }
-pub type BlsResult<T> = Result<T, BlsError>;
 /// debug view (E8): a failing debug assertion is a panic, i.e. an obligation `false`
 pub fn debug_assert_failed() requires false { }
 
